@@ -22,6 +22,13 @@ the sequence - and part `eye-int` hands over records of integer ADC counts in ev
 them are unit changes alpha x + beta of the base record (alpha = 1, beta = 0 for a pure change of form) and are compared with
 the affine image of the base result by the same equivariance oracle.
 
+Structural offsets (added after seeded wave 4): part `eye-offsets` places 0 V at every distinguished position RELATIVE TO THE TWO
+LEVELS of the record - upper level exactly at 0 V, lower level at 0 V, eye symmetric about 0 V, upper level / lower level just
+above and just below 0 V, the record maximum / minimum exactly at 0.0 and 1 % of the eye height either side of it, eyes that are
+entirely (and strongly) negative or far above 0 V - each combined with alpha in {1, 1e-3, 1e3}.  They are further members of the
+unit-change alphabet (compared with the affine image of the base result), and because the offset record is itself a two-level
+waveform with levels alpha a + beta < alpha b + beta, the absolute bands of the statement are asserted on its result as well.
+
 The waveform is built without the library (own LFSR for the PRBS bits, np.kron, scipy
 Bessel/sosfiltfilt, a private RandomState); only GET_EYE (and gv for sps) is under test.
 """
@@ -64,7 +71,10 @@ N_UNIT = len(EQUIV)     # variants 0 ... 4: the unit changes of the original alp
 
 def V(alpha, beta, cont='nd', dtype='f64', gvf='sps,R', callf='kw'):
     """one variant = the base record after the unit change alpha x + beta, handed to GET_EYE in one form:
-    beta  : volts, or ('s', k): beta = k alpha sigma (offset of k noise standard deviations of the scaled record)
+    beta  : volts, or ('s', k): beta = k alpha sigma (offset of k noise standard deviations of the scaled record), or a
+            STRUCTURAL offset, defined relative to the record: ('lv', p): 0 V lies at the fraction p of the eye, beta = -alpha (a + p (b-a))
+            (p = 0 lower level at 0 V, p = 1 upper level at 0 V, p = 0.5 symmetric eye, p > 1 both levels negative);
+            ('max', f) / ('min', f): the record maximum / minimum lies at f alpha (b-a) (f = 0: it is exactly 0.0)
     cont  : 'nd' ndarray | 'es' electrical_signal(x) | 'es+n' electrical_signal(clean, noise) | 'es+0' electrical_signal(x, zeros)
             | 'es+n32' electrical_signal(clean, float32 noise): noise of another dtype than the signal
     dtype : sample dtype ('f64', 'f32', 'f16', 'c128' (zero imaginary part), integer dtypes 'i8' ... 'u64')
@@ -111,6 +121,22 @@ VARIANTS += [V(1, 0, 'nd', dt) for dt in INT_DTYPES] + [V(2, 11, 'nd', dt) for d
     V(1, 0, 'es', 'i16'), V(1, 0, 'es+n', 'i16'), V(2, 11, 'es+n', 'i32'), V(1, 0, 'es', 'u16'), V(1, 0, 'es+n', 'i64'),
     V(1, 0, 'nd', 'f32'), V(1, 0, 'nd', 'i16', gvf='R,fs', callf='pos'), V(1, 0)]
 INT_ALL = tuple(range(INT_VARIANTS_START, len(VARIANTS)))
+# ---- seeded wave 4: structural offsets (part eye-offsets): where 0 V lies relative to the two levels / the record extremes.
+# Simplest first: upper level at 0 V, lower level at 0 V, symmetric eye; record maximum exactly 0.0; upper level 10 % / 25 % of the eye
+# height above and below 0 V, record maximum 1 % above / below 0 V; the same for the lower level / record minimum; both levels
+# negative (eye at [-d, 0] ... [-1001 d, -1000 d]) and far above 0 V.  Every offset with every alpha of {1, 1e-3, 1e3}.
+OFFSETS = [('lv', 1.0), ('lv', 0.0), ('lv', 0.5), ('max', 0.0), ('lv', 0.9), ('lv', 1.1), ('max', 0.01), ('max', -0.01),
+           ('lv', 0.75), ('lv', 1.25), ('min', 0.0), ('min', 0.01), ('min', -0.01), ('lv', 0.1), ('lv', -0.1),
+           ('lv', 2.0), ('lv', 11.0), ('lv', 1001.0), ('lv', -1000.0)]
+OFFS_ALPHAS = [1.0, 1e-3, 1e3]
+OFFS_VARIANTS_START = len(VARIANTS)
+VARIANTS += [V(al_, off_) for off_ in OFFSETS for al_ in OFFS_ALPHAS]
+OFFS_ALL = tuple(range(OFFS_VARIANTS_START, len(VARIANTS)))
+# thin slice: upper level at 0 V with every alpha, one member of every other group
+OFFS_FEW = tuple(VARIANTS.index(v) for v in (
+    V(1, ('lv', 1.0)), V(1e-3, ('lv', 1.0)), V(1e3, ('lv', 1.0)), V(1, ('max', 0.0)), V(1e3, ('lv', 0.9)), V(1e-3, ('lv', 1.1)),
+    V(1, ('lv', 0.5)), V(1, ('min', 0.0)), V(1, ('lv', 11.0))))
+BAND_PP = (1e-3, 100.0)  # the bands of the statement are quantified for eye heights from 1e-3 V to 100 V
 # level pairs in counts: 1000 counts unipolar / bipolar (12 ... 16 bit converters), 100 counts for the 8-bit types
 LEVELS_INT = [(500.0, 1500.0), (-500.0, 500.0), (-50.0, 50.0), (20.0, 120.0)]
 MIN_SIGMA_COUNTS = 2.0   # spread bands are asserted on count records only when the Gaussian part dominates the rounding (rms 0.29)
@@ -394,10 +420,11 @@ def check_equiv(base, out, alpha, beta, d, xmax, tag, beta_txt=None, form='', fl
     compared only when the timing outputs did not move"""
     v = []
     pair = f'alpha={alpha:g},beta={beta:g}' + (f' [{form}]' if form else '')
+    named = beta_txt is not None         # offset given by its definition (k sigma, position of 0 V): part of the key even when it is 0
     if beta_txt is None:
         beta_txt = f'{beta:g}'
     # input class of the key: decade of the eye height before -> after the unit change (+ the offset when there is one)
-    cls = amp_class(d) + '->' + amp_class(alpha * d)[3:] + (f',beta={beta_txt}' if beta else '') + (f',{form}' if form else '')
+    cls = amp_class(d) + '->' + amp_class(alpha * d)[3:] + (f',beta={beta_txt}' if (beta or named) else '') + (f',{form}' if form else '')
     # tolerance: the design's 1e-6 relative to the scaled eye height, plus the rounding floor of forming alpha x + beta
     tol = EQ_REL * alpha * d + 64 * EPS * (abs(beta) + alpha * xmax) + floor
     B = {k: _num(base[k]) for k in FIELDS}
@@ -449,13 +476,25 @@ def check_equiv(base, out, alpha, beta, d, xmax, tag, beta_txt=None, form='', fl
 
 
 # ------------------------------------------------------------------ case function
-def variant_info(var, sigma, xmax, nmax, nwin):
-    """(alpha, beta in volts, key spelling of beta, key suffix of the form, extra rounding floor, low precision?) of a variant"""
+def variant_info(var, sigma, xmax, nmax, nwin, rec=None):
+    """(alpha, beta in volts, key spelling of beta, key suffix of the form, extra rounding floor, low precision?, structural
+    offset?) of a variant; rec = (a, b, record minimum, record maximum) of the base record (needed by the structural offsets)"""
     alpha, beta, cont, dtype, gvf, callf = var
-    beta_txt = None
-    if isinstance(beta, tuple):           # offset of k standard deviations of the scaled noise
+    beta_txt, struct = None, False
+    if isinstance(beta, tuple) and beta[0] == 's':       # offset of k standard deviations of the scaled noise
         beta_txt = f'{beta[1]:g}sigma'
         beta = beta[1] * alpha * sigma
+    elif isinstance(beta, tuple):                        # structural offset: position of 0 V relative to the levels / extremes
+        kind, k = beta
+        a, b, xlo, xhi = rec
+        struct = True
+        if kind == 'lv':
+            beta_txt = f'0V@{k:g}'
+            beta = -(alpha * (a + k * (b - a)))
+        else:                                            # alpha * x + beta is exactly 0.0 at the extreme sample when k = 0
+            beta_txt = f'{kind}@{k:g}'
+            beta = -(alpha * {'max': xhi, 'min': xlo}[kind]) + k * (alpha * (b - a))
+        beta = float(beta) + 0.0                         # (-0.0 -> 0.0)
     parts = ([] if (cont, dtype) == ('nd', 'f64') else [f'{cont}:{dtype}']) + ([] if gvf == 'sps,R' else [f'gv({gvf})']) \
         + ([] if callf == 'kw' else [f'call:{callf}'])
     mag = abs(beta) + alpha * xmax
@@ -467,7 +506,7 @@ def variant_info(var, sigma, xmax, nmax, nwin):
         lowprec = True
     if cont == 'es+n32':
         floor, lowprec = U32 * alpha * nmax, True        # the noise part is rounded to float32
-    return alpha, beta, beta_txt, ','.join(parts), floor, lowprec
+    return alpha, beta, beta_txt, ','.join(parts), floor, lowprec, struct
 
 
 def eye_case(case):
@@ -506,10 +545,11 @@ def eye_case(case):
     obs = [canon(base)]
     ncalls, nskip = 1, 0
     xmax, nmax = float(np.max(np.abs(x))), float(np.max(np.abs(noise)))
+    rec = (a, b, float(np.min(x)), float(np.max(x)))
     nwin = 8 * used.size                                  # > 0.1 * 1.1 slot of every 2-slot trace at 128 samples per slot
     for j in eq:
         var = VARIANTS[j]
-        alpha, beta, beta_txt, form, floor, lowprec = variant_info(var, sigma, xmax, nmax, nwin)
+        alpha, beta, beta_txt, form, floor, lowprec, struct = variant_info(var, sigma, xmax, nmax, nwin, rec)
         o = obj(alpha, beta, var[2], var[3])
         # reduced-precision samples: the record must still carry its noise (rounding of the samples <= sigma/8)
         prec = {'f32': 2 * U32, 'f16': EPS16}.get(var[3], 0.0) * (abs(beta) + alpha * xmax)
@@ -521,9 +561,13 @@ def eye_case(case):
         ncalls += 1
         ctxt = tag + f' a={a:g} b={b:g} sigma={sigma:g}'
         viol += check_equiv(base, out, alpha, beta, b - a, xmax, ctxt, beta_txt, form, floor, lowprec)
-        if lowprec:                                       # the equivariance tolerance is wide here: bands of the scaled record too
-            viol += [(k + ',' + form, m) for k, m in
-                     check_bands(out, alpha * a + beta, alpha * b + beta, alpha * sigma, sps, tag + f' [{form}]', rare)]
+        # the absolute bands of the statement on the result of the variant: for reduced-precision samples (the equivariance tolerance
+        # is wide there) and for the structural offsets (the offset record is a two-level waveform with levels alpha a + beta <
+        # alpha b + beta in its own right; asserted when its eye height lies in the quantified range 1e-3 V ... 100 V)
+        if lowprec or (struct and BAND_PP[0] * (1 - 1e-9) <= alpha * (b - a) <= BAND_PP[1] * (1 + 1e-9)):
+            sfx = ','.join(p_ for p_ in (f'beta={beta_txt}' if struct else '', form) if p_)
+            viol += [(k + ',' + sfx, m) for k, m in
+                     check_bands(out, alpha * a + beta, alpha * b + beta, alpha * sigma, sps, tag + f' [{sfx}]', rare)]
         obs.append(canon(out))
     # one message per key per case
     seen, vv = set(), []
@@ -598,10 +642,29 @@ def selftest_case(case):
     for lv in LEVELS_INT:                        # every count level pair is held by at least one integer dtype, at every sigma
         xx = build_parts((0, 'rand0:64', 8, lv, 3, 0, 0), True)[1:]
         assert sum(make_input('nd', dt, 1.0, 0.0, xx[0], xx[2], xx[3]) is not None for dt in INT_DTYPES) >= 1
-    al, be, btxt, form, floor, low = variant_info(V(1e3, ('s', 1e8), 'es+n', 'f32', 'R,fs', 'pos'), 0.01, 1.1, 0.05, 512)
-    assert (al, be, btxt, form, low) == (1e3, 1e9, '1e+08sigma', 'es+n:f32,gv(R,fs),call:pos', True) and floor > 0
-    assert variant_info(V(1, 7), 0.01, 1.1, 0.05, 512)[2:] == (None, '', 0.0, False)
-    assert variant_info(V(1, 7, 'es+n32'), 0.01, 1.1, 0.05, 512)[3:] == ('es+n32:f64', U32 * 0.05, True)
+    al, be, btxt, form, floor, low, st = variant_info(V(1e3, ('s', 1e8), 'es+n', 'f32', 'R,fs', 'pos'), 0.01, 1.1, 0.05, 512)
+    assert (al, be, btxt, form, low, st) == (1e3, 1e9, '1e+08sigma', 'es+n:f32,gv(R,fs),call:pos', True, False) and floor > 0
+    assert variant_info(V(1, 7), 0.01, 1.1, 0.05, 512)[2:] == (None, '', 0.0, False, False)
+    assert variant_info(V(1, 7, 'es+n32'), 0.01, 1.1, 0.05, 512)[3:] == ('es+n32:f64', U32 * 0.05, True, False)
+    # seeded wave 4: structural offsets.  rec = (a, b, record minimum, record maximum)
+    assert len(OFFS_ALL) == len(OFFSETS) * len(OFFS_ALPHAS) and len(set(OFFS_FEW)) == len(OFFS_FEW) and set(OFFS_FEW) <= set(OFFS_ALL)
+    assert {VARIANTS[j][0] for j in OFFS_ALL} == set(OFFS_ALPHAS) and all(VARIANTS[j][2:] == ('nd', 'f64', 'sps,R', 'kw') for j in OFFS_ALL)
+    rec = (5.0, 6.0, 4.9, 6.2)
+    assert variant_info(V(1, ('lv', 1.0)), 0.01, 6.2, 0.05, 512, rec)[1:] == (-6.0, '0V@1', '', 0.0, False, True)      # upper level at 0 V
+    assert variant_info(V(50, ('lv', 0.0)), 0.01, 6.2, 0.05, 512, rec)[1:3] == (-250.0, '0V@0')                          # lower level at 0 V
+    assert variant_info(V(1, ('lv', 0.5)), 0.01, 6.2, 0.05, 512, rec)[1] == -5.5                                         # symmetric about 0 V
+    assert variant_info(V(1, ('lv', 11.0)), 0.01, 6.2, 0.05, 512, rec)[1] == -16.0                                       # eye at [-11, -10]
+    assert variant_info(V(1, ('lv', 0.0)), 0.01, 1.2, 0.05, 512, (0.0, 1.0, -0.1, 1.2))[1:3] == (0.0, '0V@0')           # identity, still named
+    xs = build((0, 'rand0:64', 8, (5.0, 6.0), 1, 0, 0))[1]
+    rec = (5.0, 6.0, float(xs.min()), float(xs.max()))
+    for al in OFFS_ALPHAS:
+        bmax = variant_info(V(al, ('max', 0.0)), 0.01, 6.2, 0.05, 512, rec)
+        bmin = variant_info(V(al, ('min', 0.0)), 0.01, 6.2, 0.05, 512, rec)
+        assert (al * xs + bmax[1]).max() == 0.0 and (al * xs + bmin[1]).min() == 0.0 and bmax[2] == 'max@0'       # exactly 0.0
+        hi = (al * xs + variant_info(V(al, ('max', 0.01)), 0.01, 6.2, 0.05, 512, rec)[1]).max()
+        lo = (al * xs + variant_info(V(al, ('max', -0.01)), 0.01, 6.2, 0.05, 512, rec)[1]).max()
+        assert abs(hi / al - 0.01) < 1e-12 and abs(lo / al + 0.01) < 1e-12
+    assert check_equiv(good, dict(good, s0=0.013), 1.0, 0.0, 1.0, 1.05, 'self', beta_txt='0V@0')[0][0] == 'equiv:levels:pp=1e+00V->1e+00V,beta=0V@0'
     # low-precision index rule and form suffix of the keys
     assert check_equiv(good, dict(good, t_opt=good['t_opt'] + STEP, i=5), 1.0, 0.0, 1.0, 1.05, 'self', lowprec=True) == []
     assert check_equiv(good, dict(good, t_opt=good['t_opt'] + STEP, i=5), 1.0, 0.0, 1.0, 1.05, 'self')
@@ -741,6 +804,20 @@ def enumerate_int(ctx):
     return [c + (INT_ALL, ns, True) for v, c, ns in _form_vectors(ctx, PATTERNS, LEVELS_INT, 1 if ctx.quick else 2)]
 
 
+def enumerate_offsets(ctx):
+    """part eye-offsets: structural offsets x alpha.  quick: every variant on the simplest (pattern, sps, level pair, sigma, KMeans seed)
+    vector, the thin slice OFFS_FEW on the vectors with one deviation; thorough: every variant on the full product pattern x sps x
+    sigma x KMeans seed for the level pair (0,1) and on all vectors within <= 2 deviations (every level pair)"""
+    axes = [len(PATTERNS), len(SPS), len(LEVELS), len(SIGMA_PCT), len(KSEEDS)]
+    vecs = [(v, OFFS_ALL if (not ctx.quick or not any(v)) else OFFS_FEW) for v in _deviations(axes, 1 if ctx.quick else 2)]
+    if not ctx.quick:
+        seen = {v for v, _ in vecs}
+        full = sorted(itertools.product(range(axes[0]), range(axes[1]), [0], range(axes[3]), range(axes[4])),
+                      key=lambda v: (sum(1 for x in v if x), v))
+        vecs += [(v, OFFS_ALL) for v in full if v not in seen]
+    return [(ctx.seed, PATTERNS[p], SPS[s], LEVELS[l], g, 0, KSEEDS[k], eq) for (p, s, l, g, k), eq in vecs]
+
+
 # minimal inputs of the two confirmed defects (fixed content: harness seed 0), executed in both tiers
 REGRESS = [
     # proposed_fixes/C17_1: crossing KMeans on raw (t, volts): t_left == t_right, nan levels for b-a = 100 V
@@ -777,6 +854,14 @@ def run(ctx):
              f'{len(INT_ALL)} variants = every integer dtype int8 ... uint64 that holds the record, also after the integer unit change '
              '2 x + 11, inside electrical_signal with / without integer noise part; same lattice as eye-forms with <= 1 / <= 2 '
              f'deviations; spread bands asserted for sigma >= {MIN_SIGMA_COUNTS:g} counts only')
+    ctx.rule(f'part eye-offsets: structural offsets = position of 0 V relative to the record: 0 V at the fraction p of the eye for p in '
+             f'{[k for kind, k in OFFSETS if kind == "lv"]} (1: upper level at 0 V, 0: lower level at 0 V, 0.5: symmetric, > 1: both levels '
+             'negative), record maximum / minimum exactly at 0.0 and 1 % of the eye height above / below 0 V; each with alpha in '
+             f'{OFFS_ALPHAS} = {len(OFFS_ALL)} variants; oracles: affine image of the base result and the bands of the statement on '
+             'the offset record itself (eye height within 1e-3 ... 100 V). quick: all variants on the simplest (pattern, sps, level '
+             f'pair, sigma, KMeans seed) vector, thin slice of {len(OFFS_FEW)} on the vectors with one deviation; thorough: all '
+             'variants on the full product pattern x sps x sigma x KMeans seed for the level pair (0,1) and on all vectors within '
+             '<= 2 deviations')
     ctx.assume('numpy.random.seed(k) fixes every draw of sklearn KMeans (random_state=None uses the global RNG); '
                'workers are single-threaded so KMeans is deterministic')
     ctx.assume('scipy.signal.bessel/sosfiltfilt (the mild band-limit of the harness waveform) and RandomState are correct')
@@ -812,6 +897,13 @@ def run(ctx):
     ctx.space('axes.int_variants', len(INT_ALL), quiet=True)
     ctx.space('axes.levels_int', len(LEVELS_INT), quiet=True)
     ctx.pmap('eye-int', eye_case, icases, horizon=120, chunk=2)
+    ocases = enumerate_offsets(ctx)
+    ctx.space('axes.offset_positions', len(OFFSETS), quiet=True)
+    ctx.space('axes.offset_variants', len(OFFS_ALL), quiet=True)
+    ctx.space('axes.offset_variants_thin', len(OFFS_FEW), quiet=True)
+    ctx.space('offsets.cases_all_variants', sum(1 for c in ocases if c[7] == OFFS_ALL))
+    ctx.space('offsets.cases_thin_slice', sum(1 for c in ocases if c[7] == OFFS_FEW))
+    ctx.pmap('eye-offsets', eye_case, ocases, horizon=300, chunk=1)
     # one long case = 3 ... 6 calls of 0.6 s (idle); generous horizon because the machine is shared; recheck 2 (re-runs are serial)
     ctx.pmap('eye-long', eye_case, enumerate_long(ctx), horizon=600, chunk=1, recheck=2)
     ctx.extra['get_eye_calls'] = ctx.stats.get('GET_EYE_calls', 0)
